@@ -104,7 +104,19 @@ def timeout(duration, func, *args, **kwargs):
 
     target_thread = InterruptableThread(func, args, kwargs)
     target_thread.start()
-    target_thread.join(duration)
+    try:
+        target_thread.join(duration)
+    except BaseException:
+        # The waiting thread was itself interrupted (a timeout nested inside a timed-out
+        # execution, e.g. a threaded import): do not leave the inner thread running.
+        # is_alive() cannot be trusted here, an interrupted join() may mark the thread as stopped.
+        if not target_thread.abandoned:
+            target_thread.abandoned = True
+            try:
+                InterruptableThread._async_raise(target_thread.ident, SystemExit)
+            except (ValueError, SystemError):
+                pass
+        raise
 
     if target_thread.is_alive():
         target_thread.abandoned = True
